@@ -20,8 +20,9 @@ import jsonrpclib.jsonrpc as J
 from mc import env
 from mc.core import Out, drive
 
-NON200 = {"E4XX_LEN": 404, "E5XX_LEN": 500, "E5XX_NOLEN": 500, "BODILESS": 204, "E4XX_BIN": 404, "E500_JSONCT": 500, "E204_LEN": 204, "E4XX_BIGUTF8": 403}
-URLS = {"tcp": "http://peer.test:8080/rpc?x=1", "unix": "unix+http://./sock"}
+NON200 = {"E4XX_LEN": 404, "E5XX_LEN": 500, "E5XX_NOLEN": 500, "BODILESS": 204, "E4XX_BIN": 404, "E500_JSONCT": 500, "E204_LEN": 204, "E4XX_BIGUTF8": 403,
+          "E599_NOREASON": 599, "E520_BLANKREASON": 520, "E404_NOREASON": 404, "E299_OK": 299}
+URLS = {"tcp": "http://peer.test:8080/rpc?x=1", "unix": "unix+http://./sock", "unix-rel": "unix+http:run/rel.sock"}
 
 
 class Client(object):
@@ -93,6 +94,23 @@ def run_sequence(seq, transport, kind, states=None):
     classes = []
     ncalls = 0
     run_sequence.positions = positions = []
+    addrs = []
+    orig_connect = env.PeerSocket.connect
+    cwd = os.getcwd()
+    if transport == "unix-rel":
+        def rec_connect(self, addr):
+            addrs.append(os.path.abspath(addr) if isinstance(addr, str) else addr)  # the socket the kernel would resolve right now
+            return orig_connect(self, addr)
+        env.PeerSocket.connect = rec_connect
+    try:
+        return _run_sequence(peer, seq, transport, kind, states, viols, classes, positions, addrs)
+    finally:
+        env.PeerSocket.connect = orig_connect
+        os.chdir(cwd)
+
+
+def _run_sequence(peer, seq, transport, kind, states, viols, classes, positions, addrs):
+    ncalls = 0
     with env.client_net(peer):
         c = Client(URLS[transport], kind)
         tail = 0
@@ -111,6 +129,12 @@ def run_sequence(seq, transport, kind, states=None):
                 break
             ncalls += 1
             positions.append(peer.pos)
+            if transport == "unix-rel":
+                # the process changes its working directory between calls: the socket named by the URL stays the same one
+                os.chdir("/" if os.getcwd() != "/" else "/var")
+                if len(set(addrs)) > 1:
+                    viols.append(("C19/unix/reconnects-to-a-different-socket", "sequence %r: connections went to %r after the working directory changed" % (seq, addrs)))
+                    break
             consumed = peer.consumed[before:]
             last = consumed[-1][0] if consumed else None
             if states is not None:
@@ -133,7 +157,7 @@ def run_sequence(seq, transport, kind, states=None):
                     else:
                         if ex.errcode != NON200[last]:
                             viols.append(("C19/TransportError-wrong-status", "status %d reported as %r" % (NON200[last], ex.errcode)))
-                        want_url = {"tcp": "peer.test:8080/rpc?x=1", "unix": "./"}[transport]
+                        want_url = {"tcp": "peer.test:8080/rpc?x=1", "unix": "./", "unix-rel": "/"}[transport]
                         if not str(ex.url).endswith("/rpc?x=1") and transport == "tcp" or (transport == "tcp" and "peer.test:8080" not in str(ex.url)):
                             viols.append(("C19/TransportError-wrong-url", "url %r, expected host+handler %r" % (ex.url, want_url)))
             if last in NON200 and res[0] == "val" and kind != "notify":
@@ -171,6 +195,11 @@ def fault_cases(tier, transport):
             for kind in ("call", "batch"):
                 yield ((y, x, z), transport, kind)
                 yield ((y, z, x), transport, kind)
+    if transport == "unix":
+        # a socket path given relative to the working directory, which changes between calls
+        for d in (1, 2):
+            for seq in itertools.product(env.ALPHABET, repeat=d):
+                yield (seq, "unix-rel", "call")
     # long histories (the proxy after many faults / many healthy exchanges behaves like a fresh one)
     n = 150 if tier == "thorough" else 40
     for f in env.ALPHABET:
@@ -516,7 +545,7 @@ META = {
     "scripted peer; per-call token oracle; conformance leg over kernel TCP/Unix sockets",
     "rule": "every sequence of 1..3 (thorough 1..4) behaviours over {OK_KA, OK_CLOSE, REFUSE, CLOSE0, RESET, E4XX_LEN, E5XX_LEN, E5XX_NOLEN, BODILESS, TRUNC, "
     "EMPTY200, GARBAGE200, TRUNC_BIG, RESET_MID}, consumed one per connection attempt or per request read, followed by three healthy exchanges, x {Transport over TCP, UnixTransport} "
-    "x {call, notification, batch of call+notification+call}; 5 further behaviours (binary and large multi-byte error bodies, a 500 carrying the JSON-RPC content type and a foreign result, a truncated error body, a 204 "
+    "x {call, notification, batch of call+notification+call}; 9 further behaviours (status lines without a reason phrase and codes outside the registry, a 299 reply, binary and large multi-byte error bodies, a 500 carrying the JSON-RPC content type and a foreign result, a truncated error body, a 204 "
     "announcing a length) alone, in every pair with any behaviour and in triples with 5 base behaviours; long histories: each behaviour repeated 40 (thorough 150) times, each after 160 (600) healthy "
     "exchanges, each alternating with healthy exchanges, and 6 cycles through the alphabet; states = distinct (cached connection state, unread bytes, script position) after a call, "
     "transitions = client calls; kernel leg: sequences of length <=2 over real loopback TCP and Unix sockets, outcome classes compared with the model; "
